@@ -139,6 +139,9 @@ pub enum OpSpec {
     /// the MIPS lifter gives syscall/break/trap), or present with one read expression
     IntrinsicWithLists(bool),
     Nop,
+    /// a `Nop` standing in for the given operation (`Operation::placeholder`, what lifters
+    /// leave for a direct jump): does nothing, whatever it wraps
+    Placeholder(Box<OpSpec>),
 }
 
 #[derive(Clone, Debug, Serialize, Deserialize, PartialEq, Eq)]
@@ -200,6 +203,16 @@ impl FuncSpec {
                         vec![0, 0, 0, 0],
                     )),
                     OpSpec::Nop => block.nop(),
+                    OpSpec::Placeholder(inner) => {
+                        let op = match &**inner {
+                            OpSpec::Assign(n, b, e) => il::Operation::assign(il::scalar(n.clone(), *b), e.build()?),
+                            OpSpec::Load(n, b, e) => il::Operation::load(il::scalar(n.clone(), *b), e.build()?),
+                            OpSpec::Store(i, s) => il::Operation::store(i.build()?, s.build()?),
+                            OpSpec::Branch(t) => il::Operation::branch(t.build()?),
+                            _ => il::Operation::nop(),
+                        };
+                        block.placeholder(op)
+                    }
                 }
                 let last = block.instructions_mut().last_mut().unwrap();
                 last.set_address(ins.address);
